@@ -168,7 +168,11 @@ Example escape_sound_example_maps :
                     98; 91; 39; 97; 34; 98; 39; 44; 32; 49; 93; 107; 39; 60; 105; 62;
                     60; 98; 62; 91; 39; 97; 34; 98; 39; 44; 32; 49; 93; 60; 105; 62;  107; 39] /\
     output_of s = html_escape (output_of s0) /\ clean (output_of s) = true.
-Proof. split; [reflexivity|]. split; [reflexivity|]. eexists. eexists. repeat split; vm_compute; reflexivity. Qed.
+Proof.
+  split; [reflexivity|]. split; [reflexivity|]. eexists. eexists.
+  split; [vm_compute; reflexivity|]. split; [vm_compute; reflexivity|].
+  split; [vm_compute; reflexivity|]. split; vm_compute; reflexivity.
+Qed.
 
 (* the restriction to the safe-marking-free fragment is necessary: x|safe prints the data raw *)
 Example safe_filter_is_outside_the_fragment :
